@@ -24,7 +24,7 @@ fn ids_sexp(v: &[Ident]) -> String {
 fn alias_sexp(a: &Option<TableAlias>) -> Option<String> {
     match a {
         None => Some("none".into()),
-        Some(TableAlias { name, columns }) if columns.is_empty() => Some(id_sexp(name)),
+        Some(TableAlias { name, columns, .. }) if columns.is_empty() => Some(id_sexp(name)),
         _ => None,
     }
 }
@@ -33,7 +33,7 @@ fn item_sexp(i: &SelectItem) -> Option<String> {
     let plain = WildcardAdditionalOptions::default();
     Some(match i {
         SelectItem::UnnamedExpr(e) => format!("(item {})", expr_sexp(e)?),
-        SelectItem::ExprWithAlias { expr, alias } => format!("(as {} {})", expr_sexp(expr)?, id_sexp(alias)),
+        SelectItem::ExprWithAlias { expr, alias, .. } => format!("(as {} {})", expr_sexp(expr)?, id_sexp(alias)),
         SelectItem::Wildcard(o) if *o == plain => "(star)".into(),
         SelectItem::QualifiedWildcard(n, o) if *o == plain => format!("(qstar{})", ids_sexp(&n.0)),
         _ => return None,
@@ -42,12 +42,12 @@ fn item_sexp(i: &SelectItem) -> Option<String> {
 
 fn factor_sexp(f: &TableFactor) -> Option<String> {
     Some(match f {
-        TableFactor::Table { name, alias, args: None, with_hints, version: None, partitions, with_ordinality: false }
+        TableFactor::Table { name, alias, args: None, with_hints, version: None, partitions, with_ordinality: false, .. }
             if with_hints.is_empty() && partitions.is_empty() =>
         {
             format!("(table (name{}) {})", ids_sexp(&name.0), alias_sexp(alias)?)
         }
-        TableFactor::Derived { lateral: false, subquery, alias } => format!("(derived {} {})", query_sexp(subquery)?, alias_sexp(alias)?),
+        TableFactor::Derived { lateral: false, subquery, alias, .. } => format!("(derived {} {})", query_sexp(subquery)?, alias_sexp(alias)?),
         _ => return None,
     })
 }
@@ -136,7 +136,7 @@ fn body_sexp(b: &SetExpr) -> Option<String> {
     Some(match b {
         SetExpr::Select(s) => select_sexp(s)?,
         SetExpr::Query(q) => format!("(paren {})", query_sexp(q)?),
-        SetExpr::SetOperation { op, set_quantifier, left, right } => {
+        SetExpr::SetOperation { op, set_quantifier, left, right, .. } => {
             let o = match op {
                 SetOperator::Union => "union",
                 SetOperator::Except => "except",
